@@ -16,6 +16,8 @@ def jobs(tier):
                         tags=tags.split(','), functions=functions, budget_s=budget, weight=50, twin=False, **extra))
     for f in ('rt_str', 'rt_str_file', 'rt_bytes', 'rt_int', 'rt_stream', 'rt_float', 'rt_float_special', 'rt_misc'):
         add('obligations.ch.disk_rt', f, 'C01,C08' if f in ('rt_str', 'rt_str_file', 'rt_bytes', 'rt_stream') else 'C01', C01_F)
+    add('obligations.ch.disk_rt', 'rt_json', 'C01,C02', C01_F + ['core.JSONDisk.put', 'core.JSONDisk.get', 'core.JSONDisk.store', 'core.JSONDisk.fetch'])
+    add('obligations.ch.disk_rt', 'json_keys_distinct', 'C02', ['core.JSONDisk.put'])
     for f in ('key_rt_int', 'key_rt_str', 'key_rt_bytes', 'key_rt_boundary', 'key_put_float', 'alias_int_int', 'alias_int_float_boundary',
               'alias_str_bytes', 'alias_str_str', 'alias_bytes_bytes', 'alias_native_vs_pickled', 'alias_bytes_equal_to_pickle'):
         add('obligations.ch.keys', f, 'C02', C02_F)
